@@ -2,7 +2,7 @@
 from bounded import harness, persist
 from bounded.corpus import corpus, BOUND_TEXT
 
-FAMILIES = ['sel', 'inc', 'forced', 'conpart', 'conn', 'conn2', 'dvmet']
+FAMILIES = ['sel', 'inc', 'forced', 'conpart', 'conn', 'conn2', 'dvmet', 'mix']
 
 
 def member(desc, tier, seed):
